@@ -151,7 +151,7 @@ pub fn models() -> &'static Vec<Model> {
             "Annot",
             Annot,
             true,
-            vec![req("Subtype", vec![n("Link"), n("Text")]), opt("Rect", vec![rect()]), opt("Contents", vec![s("note")]), opt("NM", vec![s("id-1")]), opt("M", vec![date()]), dflt("F", i(0), vec![i(4)]), opt("AS", vec![n("On")]), opt("Border", vec![Val::ints(&[0, 0, 1])]), opt("C", vec![Val::Array(vec![i(1), rl("0.5"), i(0)])]), opt("InkList", vec![Val::Array(vec![Val::ints(&[1, 2, 3, 4])])]), opt("Type", vec![n("Annot")])]
+            vec![req("Subtype", vec![n("Link"), n("Text")]), opt("Rect", vec![rect(), Val::Array(vec![rl("-2147483649.0"), i(0), rl("99999999999.0"), i(1)])]), opt("Contents", vec![s("note")]), opt("NM", vec![s("id-1")]), opt("M", vec![date()]), dflt("F", i(0), vec![i(4)]), opt("AS", vec![n("On")]), opt("Border", vec![Val::ints(&[0, 0, 1])]), opt("C", vec![Val::Array(vec![i(1), rl("0.5"), i(0)])]), opt("InkList", vec![Val::Array(vec![Val::ints(&[1, 2, 3, 4])])]), opt("Type", vec![n("Annot")])]
         );
         model!(
             "FieldDictionary",
@@ -197,7 +197,7 @@ pub fn models() -> &'static Vec<Model> {
             "CIDFont",
             CIDFont,
             true,
-            vec![req("CIDSystemInfo", vec![Val::dict(vec![("Registry", s("Adobe")), ("Ordering", s("Identity")), ("Supplement", i(0))])]), req("FontDescriptor", vec![fd_val.clone()]), dflt("DW", i(1000), vec![i(500)]), opt("W", vec![Val::Array(vec![i(1), Val::Array(vec![i(500), i(600)]), i(10), i(12), i(700)])]), opt("CIDToGIDMap", vec![n("Identity")]), opt("BaseFont", vec![n("F")]), opt("Subtype", vec![n("CIDFontType2")])]
+            vec![req("CIDSystemInfo", vec![Val::dict(vec![("Registry", s("Adobe")), ("Ordering", s("Identity")), ("Supplement", i(0))])]), req("FontDescriptor", vec![fd_val.clone()]), dflt("DW", i(1000), vec![i(500), rl("4294967296.0"), rl("0.5")]), opt("W", vec![Val::Array(vec![i(1), Val::Array(vec![i(500), i(600)]), i(10), i(12), i(700)])]), opt("CIDToGIDMap", vec![n("Identity")]), opt("BaseFont", vec![n("F")]), opt("Subtype", vec![n("CIDFontType2")])]
         );
         model!(
             "Font",
@@ -219,11 +219,11 @@ pub fn models() -> &'static Vec<Model> {
             "GraphicsStateParameters",
             GraphicsStateParameters,
             true,
-            vec![opt("LW", vec![i(2), rl("0.5")]), opt("LC", vec![i(0), i(1), i(2)]), opt("LJ", vec![i(0), i(1), i(2)]), opt("ML", vec![i(10)]), opt("D", vec![Val::Array(vec![Val::ints(&[3, 1]), i(0)])]), opt("RI", vec![n("Perceptual")]), opt("OP", vec![Val::Bool(true)]), opt("op", vec![Val::Bool(false)]), opt("OPM", vec![i(1)]), opt("Font", vec![Val::Array(vec![Val::r(9), i(12)])]), opt("BM", vec![n("Multiply"), Val::Array(vec![n("Screen"), n("Normal")])]), opt("SMask", vec![n("None")]), opt("CA", vec![rl("0.5")]), opt("ca", vec![i(1)]), opt("AIS", vec![Val::Bool(true)]), opt("TK", vec![Val::Bool(false)]), opt("Type", vec![n("ExtGState")])]
+            vec![opt("LW", vec![i(2), rl("0.5"), rl("4294967296.0"), rl("-0.001")]), opt("LC", vec![i(0), i(1), i(2)]), opt("LJ", vec![i(0), i(1), i(2)]), opt("ML", vec![i(10), rl("-3000000000.0"), rl("16777217.0")]), opt("D", vec![Val::Array(vec![Val::ints(&[3, 1]), i(0)])]), opt("RI", vec![n("Perceptual")]), opt("OP", vec![Val::Bool(true)]), opt("op", vec![Val::Bool(false)]), opt("OPM", vec![i(1)]), opt("Font", vec![Val::Array(vec![Val::r(9), i(12)])]), opt("BM", vec![n("Multiply"), Val::Array(vec![n("Screen"), n("Normal")])]), opt("SMask", vec![n("None")]), opt("CA", vec![rl("0.5"), rl("1e10".replace("1e10", "10000000000.0").as_str())]), opt("ca", vec![i(1)]), opt("AIS", vec![Val::Bool(true)]), opt("TK", vec![Val::Bool(false)]), opt("Type", vec![n("ExtGState")])]
         );
-        model!("Resources", Resources, false, vec![opt("ExtGState", vec![Val::dict(vec![("GS1", Val::dict(vec![("LW", i(1))]))])]), opt("ColorSpace", vec![]), opt("Pattern", vec![Val::dict(vec![("P1", Val::r(4))])]), opt("XObject", vec![Val::dict(vec![("Im1", Val::r(5))])]), opt("Font", vec![Val::dict(vec![("F1", Val::r(6))])]), opt("Properties", vec![Val::dict(vec![("MC0", Val::dict(vec![("K", i(1))]))])])]);
-        model!("PatternDict", PatternDict, false, vec![opt("PaintType", vec![i(1)]), opt("TilingType", vec![i(2)]), req("BBox", vec![rect()]), req("XStep", vec![i(4), rl("4.5")]), req("YStep", vec![i(4)]), req("Resources", vec![Val::r(3)]), opt("Matrix", vec![Val::Array(vec![i(1), i(0), i(0), i(1), rl("0.5"), i(0)])])]);
-        model!("FormDict", FormDict, true, vec![dflt("FormType", i(1), vec![]), opt("Name", vec![n("Fm")]), opt("LastModified", vec![date()]), req("BBox", vec![rect()]), opt("Matrix", vec![Val::ints(&[1, 0, 0, 1, 0, 0])]), opt("Group", vec![Val::dict(vec![("S", n("Transparency"))])]), opt("StructParent", vec![i(3)]), opt("StructParents", vec![i(4)]), opt("PieceInfo", vec![Val::dict(vec![("X", Val::dict(vec![]))])]), opt("Metadata", vec![Val::r(8)]), opt("OPI", vec![Val::dict(vec![("1.3", Val::dict(vec![]))])]), req("Subtype", vec![n("Form")]), opt("Resources", vec![Val::dict(vec![("ExtGState", Val::dict(vec![("G", Val::dict(vec![("LW", i(1))]))]))])]), opt("Ref", vec![Val::dict(vec![("F", s("f.pdf"))])]), opt("Type", vec![n("XObject")])]);
+        model!("Resources", Resources, true, vec![opt("ExtGState", vec![Val::dict(vec![("GS1", Val::dict(vec![("LW", i(1))]))])]), opt("ColorSpace", vec![]), opt("Pattern", vec![Val::dict(vec![("P1", Val::r(4))])]), opt("XObject", vec![Val::dict(vec![("Im1", Val::r(5))])]), opt("Font", vec![Val::dict(vec![("F1", Val::r(6))])]), opt("Properties", vec![Val::dict(vec![("MC0", Val::dict(vec![("K", i(1))]))])])]);
+        model!("PatternDict", PatternDict, true, vec![opt("PaintType", vec![i(1)]), opt("TilingType", vec![i(2)]), req("BBox", vec![rect(), Val::Array(vec![rl("-3000000000.0"), i(0), rl("3000000000.0"), rl("0.25")])]), req("XStep", vec![i(4), rl("4.5"), rl("2147483648.0")]), req("YStep", vec![i(4)]), req("Resources", vec![Val::r(3)]), opt("Matrix", vec![Val::Array(vec![i(1), i(0), i(0), i(1), rl("0.5"), i(0)])])]);
+        model!("FormDict", FormDict, true, vec![dflt("FormType", i(1), vec![]), opt("Name", vec![n("Fm")]), opt("LastModified", vec![date()]), req("BBox", vec![rect(), Val::Array(vec![i(0), i(0), rl("4294967296.0"), rl("-2147483649.0")])]), opt("Matrix", vec![Val::ints(&[1, 0, 0, 1, 0, 0]), Val::Array(vec![rl("0.5"), i(0), i(0), rl("3000000000.0"), i(-7), rl("1e-3".replace("1e-3", "0.001").as_str())])]), opt("Group", vec![Val::dict(vec![("S", n("Transparency"))])]), opt("StructParent", vec![i(3)]), opt("StructParents", vec![i(4)]), opt("PieceInfo", vec![Val::dict(vec![("X", Val::dict(vec![]))])]), opt("Metadata", vec![Val::r(8)]), opt("OPI", vec![Val::dict(vec![("1.3", Val::dict(vec![]))])]), req("Subtype", vec![n("Form")]), opt("Resources", vec![Val::dict(vec![("ExtGState", Val::dict(vec![("G", Val::dict(vec![("LW", i(1))]))]))])]), opt("Ref", vec![Val::dict(vec![("F", s("f.pdf"))])]), opt("Type", vec![n("XObject")])]);
         model!(
             "ImageDict",
             ImageDict,
